@@ -23,6 +23,7 @@ from concurrent.futures import ProcessPoolExecutor
 
 from bounded._api import Bounded, REPLAY_HEADER
 from bounded import c02_ext
+from bounded import c02_gen
 
 HARNESS_SRC = r'''
 import warnings, logging, inspect, functools
@@ -367,6 +368,16 @@ def run_chunk(args):
     return out
 
 
+def run_xchunk(chunk):
+    """chunk: [(module tag, (family, case))] -> [(module tag, (family, case, result))]"""
+    out = []
+    for tag, mod in (("ext", c02_ext), ("gen", c02_gen)):
+        part = [t for m, t in chunk if m == tag]
+        if part:
+            out.extend((tag, item) for item in mod.run_chunk(part))
+    return out
+
+
 def make_replay(h, a, clause, witness):
     aid, kind, route, prep, att = a
     head = REPLAY_HEADER.format(prop="C02", name="replay_c02.py", clause=clause, witness=witness)
@@ -396,7 +407,7 @@ def run(tier, seed):
              "watcher on every object and on class A); non-trivial when the history succeeds and the attempt "
              "raises; oracle: complete snapshot before == after, and probe traces (9 later sets on every "
              "source, class and target) equal to those of the control world without the attempt"
-             + c02_ext.RULE,
+             + c02_ext.RULE + c02_gen.RULE,
         bound="histories of length <= %d over %d operations (plain set, link by Parameter / bind / rx / update / "
               "constructor, source update, user watcher, link in which the target is itself a source, class-level "
               "set on declaring class and subclass, class watcher) = %d histories x %d rejected assignments (histories of length 3: the %d core attempts) "
@@ -404,7 +415,8 @@ def run(tier, seed):
               "valid/invalid/reference value, constant Selector(check_on_set=False), read-only plain/reference) "
               "on routes instance / update / class / class-update"
               % (2 if tier == "quick" else 3, len([o for o in HISTORY_OPS if tier != "quick" or o[0] in QUICK_OPS]),
-                 len(hs), len(ATTEMPTS), len(CORE_ATTEMPTS)) + "; " + c02_ext.bound_text(tier))
+                 len(hs), len(ATTEMPTS), len(CORE_ATTEMPTS)) + "; " + c02_ext.bound_text(tier)
+              + "; " + c02_gen.bound_text(tier))
     nchunks = 64
     chunks = [(list(range(i, len(hs), nchunks)), tier) for i in range(nchunks)]
     chunks = [c for c in chunks if c[0]]
@@ -450,35 +462,42 @@ def run(tier, seed):
                     detail="%d cases with these effects; shortest history shown. " % count + " | ".join(r["detail"][:14]),
                     replay=make_replay(h, a, clause, witness))
         B._seen[(clause, witness)]["count"] = count
-    # ---- further families (bounded/c02_ext.py): Selector subscribers, rejected calls inside batches
-    xtasks = c02_ext.tasks(tier, seed)
+    # ---- further families (bounded/c02_ext.py): Selector subscribers, rejected calls inside batches;
+    # ---- (bounded/c02_gen.py): shared generators, never-evaluated references.  One pool for all of them.
+    xtasks = [("ext", t) for t in c02_ext.tasks(tier, seed)] + [("gen", t) for t in c02_gen.tasks(tier, seed)]
     nx = 48
     xchunks = [xtasks[i::nx] for i in range(nx)]
-    xresults = []
-    for out in _pmap(c02_ext.run_chunk, [c for c in xchunks if c]):
-        xresults.extend(out)
+    xresults, gresults = [], []
+    for out in _pmap(run_xchunk, [c for c in xchunks if c]):
+        for mod, item in out:
+            (xresults if mod == "ext" else gresults).append(item)
     xresults.sort(key=lambda x: c02_ext.key_of(x[0], x[1]))
-    xstats = {"SEL": [0, 0], "NB": [0, 0]}
-    for fam, c, r in xresults:
-        k = c02_ext.key_of(fam, c)
-        xstats[fam][0] += 1
-        if r["status"] != "checked":
-            B.case(key=k, nontrivial=False)
-            continue
-        xstats[fam][1] += 1
-        B.case(key=k)
-        for cl in c02_ext.clauses_of(fam):
-            B.checked(cl)
-        if xstats[fam][1] % 997 == 3:
-            B.sample({"case": k, "raised": r["exc"], "effects": sorted(r["effects"])})
-    for clause, witness, detail, replay, count in c02_ext.reports(xresults):
-        B.violation(clause=clause, witness=witness, detail=detail, replay=replay)
-        B._seen[(clause, witness)]["count"] = count
+    gresults.sort(key=lambda x: c02_gen.key_of(x[0], x[1]))
+    xstats = {"SEL": [0, 0], "NB": [0, 0], "GEN": [0, 0], "RXN": [0, 0]}
+    for mod, results in ((c02_ext, xresults), (c02_gen, gresults)):
+        for fam, c, r in results:
+            k = mod.key_of(fam, c)
+            xstats[fam][0] += 1
+            if r["status"] != "checked":
+                B.case(key=k, nontrivial=False)
+                continue
+            xstats[fam][1] += 1
+            B.case(key=k)
+            for cl in mod.clauses_of(fam):
+                B.checked(cl)
+            if xstats[fam][1] % 997 == 3:
+                B.sample({"case": k, "raised": r["exc"], "effects": sorted(e for e in r["effects"] if not e.startswith("@"))})
+        for clause, witness, detail, replay, count in mod.reports(results):
+            B.violation(clause=clause, witness=witness, detail=detail, replay=replay)
+            B._seen[(clause, witness)]["count"] = count
     if tier == "quick":
         B.exhaustive = False
     B.note("family SEL: %d cases, %d checked (history succeeded, attempt raised); family NB: %d cases, %d checked; "
            "the growth of `objects` itself (C02-b03) is left to the base family" % (
                xstats["SEL"][0], xstats["SEL"][1], xstats["NB"][0], xstats["NB"][1]))
+    B.note("family GEN: %d cases, %d checked (the rest: the class accepts the callable / the generator does not fit the "
+           "holder); family RXN: %d cases, %d checked (the rest: the current value of the reference is valid for that target)" % (
+               xstats["GEN"][0], xstats["GEN"][1], xstats["RXN"][0], xstats["RXN"][1]))
     B.note("cases: %(checked)d checked (history succeeded, attempt raised), %(not-rejected)d attempt not rejected "
            "after that history, %(history-failed)d history itself failed (both counted as trivial)" % stats)
     B.note("multi-key update in which an earlier key succeeds is not treated as one rejected assignment "
